@@ -34,7 +34,8 @@ PROPS_NOT_IN_GUARD = {
 def run(ctx):
     P = ctx.prog
     es = ctx.body(GR + "::expand_shortcuts")
-    guard_false = L.guard_edges(es, L.is_call_to(GR + "::is_special_symbol"), False)
+    GE = lambda body, pred, truth: L.guard_edges_ip(P, body, [(pred, truth)])
+    guard_false = GE(es, L.is_call_to(GR + "::is_special_symbol"), False)
     ctx.floor("C15-R1", "is_special_symbol guards in expand_shortcuts", len(set(b for b, _ in guard_false)), 2)
 
     # ---- R1 elimination sites
@@ -44,20 +45,29 @@ def run(ctx):
         ctx.check(not still, "C15-R1", "alias:guarded-by-is_special_symbol",
                   "uf_union (alias sym := trg) is dominated by !is_special_symbol(sym)",
                   "expand_shortcuts can alias away a special symbol (capture / max_tokens / sub-grammar boundary / start)", site=es.where(uf[0]))
+        def one_rule(e):
+            return e[0] == "bin" and e[1] == "Eq" and e[3][0] == "const" and e[3][1] == 1 and "rules" in repr(e[2]) and (
+                "::len" in repr(e[2]) or "PtrMetadata" in repr(e[2]))
+
+        def neutral(e):
+            try:
+                return e[0] == "call" and e[1].endswith("::eq") and any("neutral_param" in repr(L.value_of(es, a)) for a in e[2])
+            except Exception:
+                return False
+
         conds = {
-            "rules.len() == 1": lambda e: e[0] == "bin" and e[1] == "Eq" and e[3][0] == "const" and e[3][1] == 1 and "::len" in repr(e[2]),
+            "rules.len() == 1": one_rule,
             "condition.is_true()": lambda e: e[0] == "call" and e[1].endswith("ParamCond::is_true"),
-            "param == neutral_param()": lambda e: e[0] == "call" and e[1].endswith("::eq") and any(
-                "neutral_param" in repr(L.value_of(es, a)) for a in e[2]),
+            "param == neutral_param()": neutral,
         }
         for name, pred in conds.items():
-            g = L.guard_edges(es, pred, True)
+            g = GE(es, pred, True)
             still = L.dominated_by_cut(es, uf, g) if g else uf
             ctx.check(bool(g) and not still, "C15-R1", "alias:" + name, "uf_union is dominated by `%s`" % name,
                       "the alias elimination no longer requires `%s`" % name, site=es.where(uf[0]))
         # single-element rhs: slice pattern [(trg, param)] => len == 1 test on rhs
-        g = L.guard_edges(es, lambda e: e[0] == "bin" and e[1] == "Eq" and e[3][0] == "const" and e[3][1] == 1 and "PtrMetadata" in repr(e[2]) or
-                          (e[0] == "bin" and e[1] == "Eq" and e[3][0] == "const" and e[3][1] == 1 and "as_slice" in repr(e[2])), True)
+        g = GE(es, lambda e: e[0] == "bin" and e[1] == "Eq" and e[3][0] == "const" and e[3][1] == 1 and "rhs" in repr(e[2]) and (
+            "PtrMetadata" in repr(e[2]) or "::len" in repr(e[2])), True)
         still = L.dominated_by_cut(es, uf, g) if g else uf
         ctx.check(bool(g) and not still, "C15-R1", "alias:rhs-has-one-symbol", "uf_union is dominated by the single-symbol rhs pattern",
                   "the alias elimination no longer requires a one-symbol right-hand side", site=es.where(uf[0]))
@@ -74,12 +84,13 @@ def run(ctx):
                   "repl.insert(sym.idx, ..) is dominated by !is_special_symbol(sym)",
                   "expand_shortcuts can inline (eliminate) a special symbol", site=es.where(by_idx[0]))
         conds = {
-            "rules.len() == 1": lambda e: e[0] == "bin" and e[1] == "Eq" and e[3][0] == "const" and e[3][1] == 1 and "::len" in repr(e[2]),
-            "the_user_of[sym].is_some()": lambda e: e[0] == "call" and e[1].endswith("Option::<T>::is_some"),
-            "condition.is_true()": lambda e: e[0] == "call" and e[1].endswith("ParamCond::is_true"),
+            "rules.len() == 1": [(one_rule, True)],
+            "the_user_of[sym].is_some()": [(lambda e: e[0] == "call" and e[1].endswith("Option::<T>::is_some"), True),
+                                           (lambda e: e[0] == "call" and e[1].endswith("Option::<T>::is_none"), False)],
+            "condition.is_true()": [(lambda e: e[0] == "call" and e[1].endswith("ParamCond::is_true"), True)],
         }
-        for name, pred in conds.items():
-            g = L.guard_edges(es, pred, True)
+        for name, specs in conds.items():
+            g = L.guard_edges_ip(P, es, specs)
             still = L.dominated_by_cut(es, by_idx, g) if g else by_idx
             ctx.check(bool(g) and not still, "C15-R1", "inline:" + name, "repl.insert(sym.idx) is dominated by `%s`" % name,
                       "the inlining elimination no longer requires `%s`" % name, site=es.where(by_idx[0]))
